@@ -1,6 +1,6 @@
 #!/bin/bash
-# usage: ingest_mutant.sh <PROP> <mN>   copies /tmp/mut-PROP/out/mN into /verif/seeded/PROP-mN and confirms it (background friendly)
-P="$1"; M="$2"; SRC=/tmp/mut-$P/out/$M; DST=/verif/seeded/$P-$M
+# usage: ingest_mutant.sh <PROP> <mN> [worktree]   copies <worktree>/out/mN (default /tmp/mut-PROP) into /verif/seeded/PROP-mN and confirms it
+P="$1"; M="$2"; SRC="${3:-/tmp/mut-$P}"/out/$M; DST=/verif/seeded/$P-$M
 mkdir -p "$DST"; cp "$SRC"/patch.diff "$DST"/ 2>/dev/null; cp "$SRC"/demo.rs "$DST"/ 2>/dev/null; cp "$SRC"/demo.diff "$DST"/ 2>/dev/null; cp "$SRC"/meta.json "$DST"/agent_meta.json 2>/dev/null
 /verif/confirm_mutant.sh "$DST" "$P$M" > "$DST/confirm.txt" 2>&1
 tail -1 "$DST/confirm.txt"
